@@ -219,6 +219,14 @@ theorem NExt.pre {s s' : St} (h : NExt s s') (ts : List Bool) : PreSpec 0 s ts s
   rw [hl, List.foldl_append, h1]
   exact foldl_pstep_none seg (by intro e he h; subst h; have := hn _ he; simp [Ev.neutral] at this)
 
+theorem NExt.keeps {s s' : St} (h : NExt s s') {ts : List Bool} (hp : Pre s ts) : Pre s' ts := by
+  obtain ⟨seg, hl, hn⟩ := h
+  obtain ⟨h1, h2⟩ := hp
+  refine ⟨?_, h2⟩
+  unfold after at h1 ⊢
+  rw [hl, List.foldl_append, h1]
+  exact foldl_pstep_none seg (by intro e he h; subst h; have := hn _ he; simp [Ev.neutral] at this)
+
 /-! ## polls of terminate() -/
 
 theorem after_emit (s : St) (e : Ev) : after (s.emit e).log = pstep (after s.log) e := by
@@ -343,12 +351,32 @@ theorem rdwrStep_pre (o : RdwrOpts) (ts : List Bool) (s : St) :
       simp only
       split
       · exact h2.mono (by omega)
-      · have h3 := h2.trans ((Seg.ask s2 .activate).pspec ts)
-        rcases hask : s2.ask .activate with ⟨a, s3⟩
-        rw [hask] at h3
-        simp only
+      · -- nfc.tag.activate: driver calls only, terminate() is not asked
+        have hT : HasT s2 := by
+          obtain ⟨b, hb⟩ := Cb.run_eq o.discover (defaultDiscover f) .rdwr .discover s1
+          rw [hd] at hb
+          have : s2 = s1.emit (.cb .rdwr .discover dv.code b) := by
+            have := congrArg Prod.snd hb; simpa using this
+          rw [this]
+          exact ⟨id, sense_some_target _ _ _ _ _ hr⟩
+        have hact := (tagActivate_act f s2 hT).1
+        rcases hta : tagActivate f s2 with ⟨a, s3⟩
+        rw [hta] at hact
+        have h3 : PreSpec 1 s ts s3 ts := by
+          intro hp
+          have hn0 := NExt.sense o.targets o.iters s
+          rw [hr] at hn0
+          have p1 : Pre s1 ts := hn0.keeps hp
+          have p2 : Pre s2 ts := by
+            have := (Seg.cb o.discover (defaultDiscover f) .rdwr .discover s1).keeps p1
+            rw [hd] at this; exact this
+          exact Or.inl (hact.keeps p2)
         cases a with
-        | found f2 =>
+        | error e => exact h3.mono (by omega)
+        | ok ot =>
+        cases ot with
+        | none => exact h3.mono (by omega)
+        | some tt =>
           simp only
           have h4 := h3.trans ((Seg.cb o.connect .true_ .rdwr .connect s3).pspec ts)
           rcases hc : o.connect.run .true_ .rdwr .connect s3 with ⟨cv, s4⟩
@@ -385,9 +413,6 @@ theorem rdwrStep_pre (o : RdwrOpts) (ts : List Bool) (s : St) :
                   rcases hrel : o.release.run .true_ .rdwr .release s7 with ⟨rv, s8⟩
                   rw [hrel] at h8
                   exact h8.mono (by omega)
-        | ioError => exact h3.mono (by omega)
-        | kbd => exact h3.mono (by omega)
-        | _ => exact h3.mono (by omega)
 
 theorem llcpRole_pspec (o : LlcpOpts) (ini : Bool) (ts : List Bool) (s : St) :
     PSpec 5 s ts (llcpRole o ini ts s).2.1 (llcpRole o ini ts s).2.2 ∧
@@ -476,14 +501,13 @@ theorem cardStep_pspec (o : CardOpts) (ts : List Bool) (s : St) :
       simp only
       split
       · exact h2.mono (by omega)
-      · have h3 := h2.trans ((Seg.ask s2 .emulate).pspec ts)
-        rcases hask : s2.ask .emulate with ⟨a, s3⟩
-        rw [hask] at h3
+      · obtain ⟨id, f⟩ := x
+        have h3 := h2.trans ((Seg.emit s2 (.call .emulate (.found f)) (by simp)).pspec ts)
+        generalize hs3 : s2.emit (.call .emulate (.found f)) = s3 at *
         simp only
-        cases a with
-        | found f2 =>
-          simp only
-          have h4 := h3.trans ((Seg.cb o.connect .true_ .card .connect s3).pspec ts)
+        split
+        · exact h3.mono (by omega)
+        · have h4 := h3.trans ((Seg.cb o.connect .true_ .card .connect s3).pspec ts)
           rcases hc : o.connect.run .true_ .card .connect s3 with ⟨cv, s4⟩
           rw [hc] at h4
           simp only
@@ -500,9 +524,6 @@ theorem cardStep_pspec (o : CardOpts) (ts : List Bool) (s : St) :
               rcases hrel : o.release.run .true_ .card .release s6 with ⟨rv, s8⟩
               rw [hrel] at h8
               exact h8.mono (by omega)
-        | ioError => exact h3.mono (by omega)
-        | kbd => exact h3.mono (by omega)
-        | _ => exact h3.mono (by omega)
 
 /-! ## the main loop -/
 
